@@ -134,18 +134,37 @@ struct Reader {
     }
     size_t alphabet_run() const { size_t i = 0; while (pos + i < n && in_alphabet(b[pos + i])) i++; return i; }
 
+    // how many bytes of the whole alphabet run libc strtod converts (no window)
+    size_t strtod_full_len(size_t run, double *val) const {
+        std::string t((const char *)b + pos, run);
+        char *endp = nullptr;
+        double d = strtod(t.c_str(), &endp);
+        if (val) *val = d;
+        return (size_t)(endp - t.c_str());
+    }
     MVal *read_number() {
         size_t ls = strict_number_len();
         size_t run = alphabet_run();
         double va = 0, vb = 0;
         size_t la = strtod_len(true, &va), lb = strtod_len(false, &vb);
-        if (run > 63) { long_number = true; }
-        if (ls > 0 && ls == run && ls <= 63 && lb == ls) {
+        if (run > 63) {
+            // beyond the documented 63-character limit. A token that is a number under the strict grammar or as the C library
+            // reads it (whole token) is left unspecified; a token that is malformed under every reading is consumed up to
+            // where the C library stops, and the bytes after it decide (inside a container they can never continue a value)
+            double vf = 0;
+            size_t lf = strtod_full_len(run, &vf);
+            if (ls == run || lf == run) { long_number = true; pos += run; return mv_num(vf); }
+            if (lf == 0) { fail("number without digits"); return nullptr; }
+            used_leniency = true;
+            pos += lf;
+            return mv_num(vf);
+        }
+        if (ls > 0 && ls == run && lb == ls) {
             // strict number, unambiguous
             pos += ls;
             return mv_num(va);
         }
-        if (ls > 0 && ls == run && ls <= 63 && lb != ls) {
+        if (ls > 0 && ls == run && lb != ls) {
             // strict token followed by bytes strtod would also eat when given the raw text (e.g. "0x10", "1p3"): two readings
             ambiguous_number = true;
             pos += ls;
@@ -154,7 +173,7 @@ struct Reader {
         if (!lenient) { fail("number is not a strict RFC 8259 number"); return nullptr; }
         if (la == 0 && lb == 0) { fail("number without digits"); return nullptr; }
         used_leniency = true;
-        if (la != lb || run > 63) ambiguous_number = true;
+        if (la != lb) ambiguous_number = true;
         if (la == 0) { ambiguous_number = true; fail("number spelling only the raw C library reading accepts"); return nullptr; }
         pos += la;
         return mv_num(va);
